@@ -28,7 +28,11 @@ if "--no-repo" not in sys.argv and git(REPO, "branch", "--list", f"fix-{l}"):
     if git(REPO, "status", "--porcelain", "--untracked-files=no"):
         print("/repo has uncommitted changes to tracked files"); sys.exit(1)
     commits = git(REPO, "rev-list", "--reverse", f"main..fix-{l}").split()
+    skips = dict(a.split("=")[1].split(":") for a in sys.argv if a.startswith("--skip="))   # --skip=<sha prefix>:<sha on main>
     for c in commits:
+        sk = [v for k, v in skips.items() if c.startswith(k)]
+        if sk:
+            mapping[c] = git(REPO, "rev-parse", sk[0]); continue
         subj = git(REPO, "log", "-1", "--format=%s", c)
         if not subj.startswith("fix:"):
             print(f"commit {c[:8]} on fix-{l} does not start with 'fix:': {subj!r}"); sys.exit(1)
